@@ -1,24 +1,34 @@
 ---------------------------- MODULE MC_Saturation ----------------------------
 (* C13: every pattern of optical depths inc[c][w] (contribution c, wavenumber w) *)
-(* with values from Inc, and every non-empty computed set S (every contiguous    *)
-(* sub-range when Contig): the layer computed on S against the layer computed    *)
-(* on the full grid 1..NW, transmission and emission, per wavenumber.            *)
-EXTENDS Saturation, TLC, Json
+(* with values from Inc, and every computed set S: the layer computed on S       *)
+(* against the layer computed on the full grid 1..NW, transmission and emission, *)
+(* per wavenumber.  S arises either directly (how = "set": every non-empty       *)
+(* subset, or every contiguous sub-range when Contig) or as the clip of the      *)
+(* native grid to an observation (how = "obs": Grid!GClipIdx of the native       *)
+(* points NatStep*w to bin centres chosen from ObsPos; proper restrictions only).*)
+EXTENDS Saturation, Grid, SequencesExt
 CONSTANTS NW,        \* wavenumbers (zones of the grid)
           NC,        \* contributions, in evaluation order
           Inc,       \* optical depths a contribution may add at a wavenumber (0 = absent, small = window, large = band)
           Thr,       \* the cut-off (10 in the code)
           Mode,      \* "all" (as documented) | "any" (the slip) | "never"
           Contig,    \* only contiguous sub-ranges (what model(wngrid=..) can produce)
+          Hows,      \* subset of {"set", "obs"}
+          NatStep,   \* native point w sits at NatStep * w
+          ObsPos,    \* candidate observation bin centres
           Export
-VARIABLES phase, inc, S
-vars == <<phase, inc, S>>
+VARIABLES phase, inc, S, how, oc
+vars == <<phase, inc, S, how, oc>>
 W == 1..NW
 Ranges == IF Contig THEN {a..b : a \in W, b \in W} \ {{}} ELSE (SUBSET W) \ {{}}
+NatGrid == [w \in W |-> NatStep * w]
+ObsSeqs == {SetToSortSeq(P, LAMBDA a, b : a < b) : P \in {OS \in SUBSET ObsPos : Cardinality(OS) >= 2}}
 Init == /\ phase = "in"
         /\ inc \in [1..NC -> [W -> Inc]]
-        /\ S \in Ranges
-Eval == phase = "in" /\ phase' = "done" /\ UNCHANGED <<inc, S>>
+        /\ how \in Hows
+        /\ \/ how = "set" /\ S \in Ranges /\ oc = <<>>
+           \/ how = "obs" /\ oc \in ObsSeqs /\ S = GClipIdx(NatGrid, oc) /\ S # {} /\ S # W
+Eval == phase = "in" /\ phase' = "done" /\ UNCHANGED <<inc, S, how, oc>>
 Spec == Init /\ [][Eval]_vars
 Done == phase = "done"
 
@@ -28,21 +38,42 @@ X      == SatTotal(inc, W)
 EmFull == EmTerm(Mode, X, W, Thr)
 EmSub  == EmTerm(Mode, X, S, Thr)
 
-\* the property's clause, transmission and emission
+\* the property's clause, transmission and emission: two computations, per wavenumber
 TxPointwiseLicensed == Done => \A w \in S : SatLicensed(TxFull[w], TxSub[w], Thr)
 EmPointwiseLicensed == Done => \A w \in S : EmLicensed(EmFull[w], EmSub[w], X[w], Thr)
+\* one computation against the complete sum: a contribution is skipped only where the layer is dark THERE
+TxRunLicensed == Done => /\ \A w \in W : SatRunLicensed(TxFull[w], X[w], Thr)
+                         /\ \A w \in S : SatRunLicensed(TxSub[w], X[w], Thr)
+EmRunLicensed == Done => /\ \A w \in W : EmTermLicensed(EmFull[w], X[w], Thr)
+                         /\ \A w \in S : EmTermLicensed(EmSub[w], X[w], Thr)
 \* lemma: computing fewer wavenumbers can only exit earlier
 TxSubNotDarker == Done => \A w \in S : TxSub[w] <= TxFull[w]
-\* non-vacuity (must be refuted): the licence is really used
+\* an observation's clip is a contiguous range of native points
+ObsContiguous == (Done /\ how = "obs") => \E a \in W, b \in W : S = a..b
+\* non-vacuity (must be refuted): the licence is really used; restrictions by observation occur
 TxNeverDiffers == Done => \A w \in S : TxSub[w] = TxFull[w]
 EmNeverDiffers == Done => \A w \in S : EmSub[w] = EmFull[w]
+NoObsRestriction == Done => how # "obs"
 
-SeqOf(f, a, b) == [k \in 1..(b - a + 1) |-> f[a + k - 1]]
+\* ---- export: input classes for the bindings
+SatSeqOf(f, a, b) == [k \in 1..(b - a + 1) |-> f[a + k - 1]]
 Lo == SatMin([w \in W |-> w], S)
 Hi == SatMax([w \in W |-> w], S)
+\* would the any()-style coupling be rejected on this input (by the pair clause or by the single-run clause)?
+AnyFull == SatLayer("any", inc, W, Thr)
+AnySub  == SatLayer("any", inc, S, Thr)
+AnyRejected == \/ \E w \in S : ~SatLicensed(AnyFull[w], AnySub[w], Thr)
+               \/ \E w \in W : ~SatRunLicensed(AnyFull[w], X[w], Thr)
+               \/ \E w \in S : ~SatRunLicensed(AnySub[w], X[w], Thr)
+AnyEmRejected == \E w \in S : ~EmLicensed(EmTerm("any", X, W, Thr)[w], EmTerm("any", X, S, Thr)[w], X[w], Thr)
 Emit == (Export /\ Done) =>
     PrintT(<<"SAT", ToJson([inc |-> [c \in 1..NC |-> [w \in W |-> inc[c][w]]], a |-> Lo, b |-> Hi,
-                            txfull |-> SeqOf(TxFull, Lo, Hi), txsub |-> SeqOf(TxSub, Lo, Hi),
+                            how |-> how, oc |-> oc, nat |-> NatGrid,
+                            tot |-> [w \in W |-> X[w]],
+                            lic |-> [w \in W |-> X[w] > Thr],
+                            txfull |-> SatSeqOf(TxFull, Lo, Hi), txsub |-> SatSeqOf(TxSub, Lo, Hi),
                             txdiff |-> (\E w \in S : TxSub[w] # TxFull[w]),
-                            emdiff |-> (\E w \in S : EmSub[w] # EmFull[w])])>>)
+                            emdiff |-> (\E w \in S : EmSub[w] # EmFull[w]),
+                            exits |-> (\E w \in W : TxFull[w] # X[w]) \/ (\E w \in S : TxSub[w] # X[w]),
+                            disc |-> AnyRejected, emdisc |-> AnyEmRejected])>>)
 =============================================================================
